@@ -440,8 +440,10 @@ def rule_p_zst(ctx):
     if not inst_sites:
         shape2 = False
         shape2_why.append("no body installs an old table?")
+    from rules_typestate import left_test_edges, N as N_
     for b, loc in inst_sites:
         edges = _sizeof_guard_edges(ctx, b)
+        ledges = left_test_edges(ctx, b, ignore_debug=False)
         zero_edges = [e for e, k in edges.items() if k == "zero"]
         nonzero_targets = {e[1] for e, k in edges.items() if k == "nonzero"}
         # every normal path from the install to a return must take a zero-edge... on the ZST path: treat 'nonzero' edges as dead
@@ -475,6 +477,8 @@ def rule_p_zst(ctx):
             for s_ in b.succs(x):
                 if edges.get((x, s_)) == "nonzero":
                     continue
+                if ledges.get((x, s_)) == N_:
+                    continue          # found to hold no old table after all (`LEFT = if .. { Some(..) } else { None }; if LEFT.is_some() && ..`)
                 st.append((s_, path + [s_]))
         if witness is not None:
             shape2 = False
